@@ -55,6 +55,7 @@ def required(tier):
         "with_override": 50,
         "with_nested_reference": 50,
         "with_repetition": 30,
+        "with_explicit_empty": 30,
     }
     for s in SHAPES:
         d["shape." + s] = 10
@@ -123,6 +124,10 @@ def gen_modular(rng):
                 rng.shuffle(alt)
                 if alt not in alts:
                     alts.append(alt)
+            if rng.random() < 0.15 and not (f == "root" and l == "S"):
+                # an explicitly spelled empty alternative (also inside imported files)
+                alts.append([])
+                feats.add("empty")
             rules[(f, l)] = alts
     # make sure the root start rule uses an imported rule
     vis = visible("root")
@@ -191,6 +196,8 @@ def noncanonical_user(m):
 
 
 def alt_text(alt):
+    if not alt:
+        return "EMPTY"
     return " ".join(('"%s"' % x[1]) if x[0] == "t" else (x[2] + x[3]) for x in alt)
 
 
@@ -239,7 +246,7 @@ def flatten(m):
     for k in reach:
         alts = []
         for alt in rules[k]:
-            alts.append(" ".join(('"%s"' % x[1]) if x[0] == "t" else (flat_name(*x[1]) + x[3]) for x in alt))
+            alts.append(" ".join(('"%s"' % x[1]) if x[0] == "t" else (flat_name(*x[1]) + x[3]) for x in alt) if alt else "EMPTY")
             prods.append((flat_name(*k), tuple(x[1] if x[0] == "t" else flat_name(*x[1]) for x in alt)))
         lines.append("%s: %s;" % (flat_name(*k), " | ".join(alts)))
     g = None if has_rep else cfg.G(prods, flat_name("root", "S"))
@@ -306,7 +313,7 @@ def one(ctx):
     ctx.count("grammars")
     ctx.count("shape." + m["shape"])
     for ft in m["feats"]:
-        ctx.count({"alias": "with_alias", "override": "with_override", "nested": "with_nested_reference", "rep": "with_repetition"}[ft])
+        ctx.count({"alias": "with_alias", "override": "with_override", "nested": "with_nested_reference", "rep": "with_repetition", "empty": "with_explicit_empty"}[ft])
     if (lr is None) != (flr is None):
         ctx.case((str(texts), "lr-build"), True)
         ctx.violation("lr-construction-differs", case0, "Parser() on the modular grammar %s, on the flattened grammar %s" % ("constructs" if lr else "has conflicts", "constructs" if flr else "has conflicts"), known=kf)
